@@ -492,6 +492,14 @@ const IDX_MAX: u128 = (1 << 20) - 1;
 fn stamp(t_ns: u64, idx: usize) -> Stamp {
     ((t_ns as u128) << 20) | (idx as u128).min(IDX_MAX)
 }
+/// stamp of the i-th history event
+fn ev_stamp(t_ns: u64, i: usize) -> Stamp {
+    stamp(t_ns, 2 * i + 2)
+}
+/// stamp of a wait call made when `n` history events had been recorded: after event n-1, before event n
+fn call_stamp(t_ns: u64, n: usize) -> Stamp {
+    stamp(t_ns, 2 * n + 1)
+}
 fn ns_of(s: Stamp) -> u64 {
     (s >> 20) as u64
 }
@@ -528,7 +536,7 @@ impl Model {
         };
         let mut samples = vec![];
         for (i, (t, ev)) in h.events.iter().enumerate() {
-            let at = stamp(*t, i);
+            let at = ev_stamp(*t, i);
             match ev {
                 Ev::Raise { ent, st } => m.raises.entry((*ent, *st)).or_default().push(Window { a: at, b: at, optional: false }),
                 Ev::RaiseWithin { ent, st, len_ns } => {
@@ -613,7 +621,7 @@ impl Model {
             s.extend(ms.iter().map(|x| x.0));
         }
         for w in &h.waits {
-            s.insert(stamp(w.start_ns, w.start_idx));
+            s.insert(call_stamp(w.start_ns, w.start_idx));
             s.insert(stamp(w.start_ns + w.timeout_ms as u64 * MS, 0));
             if let Some(d) = w.done_ns {
                 s.insert(stamp(d, 0));
@@ -640,7 +648,7 @@ fn oracle(c: &C32Case, h: &Hist, res: &mut CaseResult) {
     let mut bad_conds: BTreeSet<u8> = BTreeSet::new();
     for (idx, (t, ev)) in h.events.iter().enumerate() {
         let Ev::Check { values } = ev else { continue };
-        let at = stamp(*t, idx);
+        let at = ev_stamp(*t, idx);
         for (i, v) in values.iter().enumerate() {
             let Some(v) = v else {
                 fails.push(("C32:trigger-value:error".into(), format!("get_trigger_value failed at {} ms", rel(*t))));
@@ -701,7 +709,7 @@ fn oracle(c: &C32Case, h: &Hist, res: &mut CaseResult) {
             res.class("wait_not_judged_trigger_value_wrong");
             continue;
         }
-        let s = stamp(w.start_ns, w.start_idx);
+        let s = call_stamp(w.start_ns, w.start_idx);
         let deadline_ns = w.start_ns + w.timeout_ms as u64 * MS;
         let deadline = stamp(deadline_ns, 0);
         let end = stamp(w.done_ns.unwrap_or(deadline_ns).min(deadline_ns), IDX_MAX as usize);
